@@ -1,12 +1,13 @@
 #!/bin/bash
-# run_seeded.sh <seed-name> <check-id>...  : apply the seeded change to /repo, run the checks, undo.
+# run_seeded.sh <seed-name> <check-id>...  : apply the seeded change to a scratch worktree of
+# /repo (never to /repo itself), run the checks against it through SIGTOOLS_REPO, remove it.
 NAME="$1"; shift
-cd /repo || exit 2
-if [ -n "$(git status --porcelain)" ]; then echo "/repo not clean"; exit 2; fi
-git apply /verif/seeded/$NAME/patch.diff || exit 2
-trap 'git -C /repo checkout -- . ; find /repo -name __pycache__ -prune -exec rm -rf {} + 2>/dev/null' EXIT
+WT=/tmp/seedwt-$$
+git -C /repo worktree add -q "$WT" HEAD || exit 2
+trap 'git -C /repo worktree remove --force "$WT" >/dev/null 2>&1' EXIT
+if ! git -C "$WT" apply /verif/seeded/$NAME/patch.diff; then echo "PATCH DOES NOT APPLY"; exit 2; fi
 cd /verif
 for c in "$@"; do
   echo "== $NAME / $c"
-  ./check $c --quick 2>&1 | grep -E "^(VIOLATION|OK|KNOWN|  )" | head -4
+  SIGTOOLS_REPO="$WT" ./check $c --quick 2>&1 | grep -E "^(VIOLATION|OK|KNOWN|  )" | head -4
 done
